@@ -535,4 +535,121 @@ theorem insertAdminNetworkPolicy_eq (e : Engine) (a : ANP) (hs : e.anps.Pairwise
     cases hx : e.exposure <;> cases hv : a.validPriority <;> by_cases hn : a.name ∈ e.anpNames <;>
     simp [hd, hx, hv, hn, bind, Except.bind, pure, Except.pure, throw, throwThe, MonadExceptOf.throw]
 
+-- ------------------------------------------------------------------------------------------
+-- connectionset.go: the set algebra itself. A Go map keyed by protocol is visited protocol by protocol; the body of a
+-- `for … range conn.AllowedProtocols` loop runs for the protocols that have an entry.
+
+theorem isAllConnectionsWithoutAllowAll_eq (c : ConnSet) :
+    Gen.Procs.isAllConnectionsWithoutAllowAll c = .ok c.isAllWithoutAllowAll := by
+  obtain ⟨a, t, u, s⟩ := c
+  cases a
+  · cases t <;> cases u <;> cases s <;>
+      simp [Gen.Procs.isAllConnectionsWithoutAllowAll, ConnSet.isAllWithoutAllowAll, Proto.all,
+        Gen.Procs.isAllConnectionsWithoutAllowAll_loop1, ConnSet.get, bind, Except.bind, pure, Except.pure]
+    rename_i p q r
+    cases p.isAll <;> cases q.isAll <;> cases r.isAll <;> rfl
+  · rfl
+
+theorem checkIfAllConnections_eq (c : ConnSet) : Gen.Procs.checkIfAllConnections c = .ok c.checkIfAll := by
+  unfold Gen.Procs.checkIfAllConnections ConnSet.checkIfAll
+  simp only [isAllConnectionsWithoutAllowAll_eq, bind, Except.bind]
+  cases c.isAllWithoutAllowAll <;> rfl
+
+theorem addConnection_eq (c : ConnSet) (pr : Proto) (ps : PortSet) :
+    Gen.Procs.addConnection c pr ps = .ok (c.addConnectionRaw pr ps) := by
+  unfold Gen.Procs.addConnection ConnSet.addConnectionRaw
+  cases he : ps.isEmpty
+  · cases hg : c.get pr <;> simp [he, hg, pure, Except.pure]
+  · simp [he, pure, Except.pure]
+
+theorem addConnectionPublic_eq (c : ConnSet) (pr : Proto) (ps : PortSet) :
+    Gen.Procs.addConnectionPublic c pr ps = .ok (c.addConnection pr ps) := by
+  unfold Gen.Procs.addConnectionPublic ConnSet.addConnection
+  simp only [addConnection_eq, checkIfAllConnections_eq, bind, Except.bind]
+  cases c.allowAll <;> rfl
+
+theorem addAllConns_eq (c : ConnSet) : Gen.Procs.addAllConns c = .ok c.addAllConns := by
+  unfold Gen.Procs.addAllConns ConnSet.addAllConns
+  simp [Proto.all, List.foldlM, bind, Except.bind, pure, Except.pure, addConnection_eq]
+
+private theorem ite_ok {α : Type} (b : Prop) [Decidable b] (x y : α) :
+    (if b then (Except.ok x : Except Err α) else Except.ok y) = Except.ok (if b then x else y) := by
+  split <;> rfl
+private theorem ok_bind {α β : Type} (a : α) (f : α → Except Err β) : (Except.ok a >>= f) = f a := rfl
+private theorem pure_ok {α : Type} (a : α) : (pure a : Except Err α) = Except.ok a := rfl
+private theorem bind_ok_id {α : Type} (x : Except Err α) : (x >>= fun s => Except.ok s) = x := by cases x <;> rfl
+
+/-- `ConnectionSet.Intersection` -/
+theorem intersection_eq (c o : ConnSet) : Gen.Procs.intersection c o = .ok (c.inter o) := by
+  obtain ⟨ca, ct, cu, cs⟩ := c
+  obtain ⟨oa, ot, ou, os⟩ := o
+  cases oa <;> cases ca <;> cases ct <;> cases cu <;> cases cs <;> cases ot <;> cases ou <;> cases os <;>
+    simp [Gen.Procs.intersection, ConnSet.inter, ConnSet.mapProtos, Proto.all, List.foldlM, ConnSet.get, ConnSet.set,
+      ok_bind, pure_ok, bind_ok_id, PortSet.copy, HOrElse.hOrElse, OrElse.orElse, Option.orElse, ite_ok,
+      apply_ite ConnSet.tcp, apply_ite ConnSet.udp, apply_ite ConnSet.sctp, apply_ite ConnSet.allowAll]
+  all_goals (repeat (first | rfl | (split <;> simp_all [ok_bind, pure_ok, bind_ok_id, ite_ok])))
+
+/-- `ConnectionSet.Union` -/
+theorem union_eq (c o : ConnSet) : Gen.Procs.union c o = .ok (c.union o) := by
+  obtain ⟨ca, ct, cu, cs⟩ := c
+  obtain ⟨oa, ot, ou, os⟩ := o
+  cases oa <;> cases ca <;> cases ct <;> cases cu <;> cases cs <;> cases ot <;> cases ou <;> cases os <;>
+    simp [Gen.Procs.union, ConnSet.union, ConnSet.mapProtos, Proto.all, List.foldlM, ConnSet.get, ConnSet.set, ConnSet.isEmpty,
+      ConnSet.noProtos, ConnSet.mk', checkIfAllConnections_eq, ok_bind, pure_ok, bind_ok_id, PortSet.copy, ite_ok,
+      apply_ite ConnSet.tcp, apply_ite ConnSet.udp, apply_ite ConnSet.sctp, apply_ite ConnSet.allowAll]
+  all_goals (repeat (first | rfl | (split <;> simp_all [ok_bind, pure_ok, bind_ok_id, ite_ok])))
+
+/-- the loop of `Subtract` over the entries of the receiver (after the AllowAll form was expanded) -/
+private theorem subtract_loop (c1 o : ConnSet) :
+    (Proto.all.foldlM (m := Except Err) (fun conn protocol => do
+      let mut conn := conn
+      if (conn.get protocol).isSome then
+        let mut ports := (conn.get protocol).getD default
+        let mut otherPorts := (o.get protocol).getD default
+        let mut ok := (o.get protocol).isSome
+        if ok then
+          if (ports.containedIn otherPorts) then
+            conn := conn.set protocol none
+          else
+            conn := conn.set protocol (some (((conn.get protocol).getD default).subtract otherPorts))
+      return conn) c1) =
+    .ok (c1.mapProtos fun pr cur =>
+      match cur with
+      | none => none
+      | some ports =>
+        match o.get pr with
+        | none => some ports
+        | some op => if ports.containedIn op then none else some (ports.subtract op)) := by
+  obtain ⟨ca, ct, cu, cs⟩ := c1
+  obtain ⟨oa, ot, ou, os⟩ := o
+  cases ct <;> cases cu <;> cases cs <;> cases ot <;> cases ou <;> cases os <;>
+    simp [ConnSet.mapProtos, Proto.all, List.foldlM, ConnSet.get, ConnSet.set, ok_bind, pure_ok, bind_ok_id, ite_ok,
+      apply_ite ConnSet.tcp, apply_ite ConnSet.udp, apply_ite ConnSet.sctp, apply_ite ConnSet.allowAll]
+  all_goals (repeat (first | rfl | (split <;> simp_all [ok_bind, pure_ok, bind_ok_id, ite_ok])))
+
+/-- `ConnectionSet.Subtract` -/
+theorem subtract_eq (c o : ConnSet) : Gen.Procs.subtract c o = .ok (c.subtract o) := by
+  obtain ⟨ca, ct, cu, cs⟩ := c
+  cases hoe : o.isEmpty
+  · cases hoa : o.allowAll
+    · cases ca
+      · have h := subtract_loop ⟨false, ct, cu, cs⟩ o
+        simp only [pure_ok] at h
+        simp [Gen.Procs.subtract, ConnSet.subtract, hoe, hoa, ok_bind, pure_ok, bind_ok_id, h]
+        rfl
+      · have h := subtract_loop (ConnSet.addAllConns ⟨false, ct, cu, cs⟩) o
+        simp only [pure_ok] at h
+        simp [Gen.Procs.subtract, ConnSet.subtract, hoe, hoa, addAllConns_eq, ok_bind, pure_ok, bind_ok_id, h]
+        rfl
+    · simp [Gen.Procs.subtract, ConnSet.subtract, hoe, hoa, pure_ok, ConnSet.mk']
+  · simp [Gen.Procs.subtract, ConnSet.subtract, hoe, pure_ok]
+
+/-- `ConnectionSet.ContainedIn` -/
+theorem containedIn_eq (c o : ConnSet) : Gen.Procs.containedIn c o = .ok (c.containedIn o) := by
+  obtain ⟨ca, ct, cu, cs⟩ := c
+  obtain ⟨oa, ot, ou, os⟩ := o
+  cases oa <;> cases ca <;> cases ct <;> cases cu <;> cases cs <;> cases ot <;> cases ou <;> cases os <;>
+    simp [Gen.Procs.containedIn, Gen.Procs.containedIn_loop1, ConnSet.containedIn, Proto.all, ConnSet.get, ok_bind, pure_ok, bind_ok_id, ite_ok]
+  all_goals (repeat (first | rfl | (split <;> simp_all [ok_bind, pure_ok, bind_ok_id, ite_ok])))
+
 end Netpol.Tie.Procs
